@@ -15,7 +15,9 @@ Local Open Scope N_scope.
      QUERY_STRING                             the RFC 3986 query of the target, undecoded
      HTTP_<NAME>                              values of the presented fields of that name, comma-joined in order
      CONTENT_LENGTH                           likewise (the parser admits at most one)
-     CONTENT_TYPE                             likewise when the field occurs at most once (duplicates: see refuted below)
+     CONTENT_TYPE                             likewise when the field occurs at most once, or always on a tree that joins
+                                              repeated Content-Type fields (GenEnv.content_type_joins, probed on the
+                                              real wsgi.create); duplicates on gunicorn 23.0.0: see refuted below
      SCRIPT_NAME ++ PATH_INFO                 the percent-decoded RFC 3986 path, one latin-1 character per octet,
                                               SCRIPT_NAME being the configured one unless a presented SCRIPT_NAME
                                               field exists (C08 says who may present one)
@@ -34,7 +36,7 @@ Theorem C15_environ_faithful : forall inet4_ok inet6_ok netloc_ok c p reqno data
     env_get s_QUERY_STRING e = Some (t_query tg) /\
     (forall k, starts_with s_HTTP_ k = true -> env_get k e = sp_var present (s_fields rq) k) /\
     env_get s_CONTENT_LENGTH e = sp_var present (s_fields rq) s_CONTENT_LENGTH /\
-    ((length (sp_values present (s_fields rq) s_CONTENT_TYPE) <= 1)%nat ->
+    (content_type_joins = true \/ (length (sp_values present (s_fields rq) s_CONTENT_TYPE) <= 1)%nat ->
        env_get s_CONTENT_TYPE e = sp_var present (s_fields rq) s_CONTENT_TYPE) /\
     exists sn pinfo,
       env_get s_SCRIPT_NAME e = Some sn /\ env_get s_PATH_INFO e = Some pinfo /\
@@ -127,12 +129,15 @@ Definition req_two_ct : bytes :=
    67;111;110;116;101;110;116;45;84;121;112;101;58;32;97;13;10;
    67;111;110;116;101;110;116;45;84;121;112;101;58;32;98;13;10;13;10].
 Theorem C15_content_type_duplicates_refuted :
+  content_type_joins = false ->
   exists c p data e rq,
     safe_cfg c = true /\
     conn_run yes yes yes c WSync p data = [REnv e] /\ sp_request data = Some rq /\
     env_get s_CONTENT_TYPE e <> sp_var (fun _ => true) (s_fields rq) s_CONTENT_TYPE.
 Proof.
-  exists cfg0, stranger, req_two_ct. eexists. eexists.
-  split; [reflexivity|]. split; [vm_compute; reflexivity|]. split; [vm_compute; reflexivity|].
-  vm_compute. discriminate.
+  intros Hflag.
+  first [ discriminate Hflag
+        | exists cfg0, stranger, req_two_ct; eexists; eexists;
+          split; [reflexivity|]; split; [vm_compute; reflexivity|]; split; [vm_compute; reflexivity|];
+          vm_compute; discriminate ].
 Qed.
